@@ -68,6 +68,21 @@ pub enum RealFinal {
 
 pub fn run_real(r: &RState, limit: usize) -> RealFinal {
     let real = make_real(r, limit);
+    {
+        let st = r.clone();
+        mcx::watch::enter(Box::new(move |_| {
+            (
+                "interp/hang".to_string(),
+                format!("run_to_completion with step limit {limit} from {}", rstate_json(&st)),
+                json!({"check": "C01", "kind": "run", "label": "hang", "limit": limit, "state": rstate_json(&st), "state_full": rstate_ser(&st)}),
+            )
+        }));
+    }
+    let out = run_real_inner(real);
+    mcx::watch::leave();
+    out
+}
+fn run_real_inner(real: push::push_vm::push_state::PushState) -> RealFinal {
     match mcx::guarded(move || real.run_to_completion()) {
         Ok(Ok(s)) => RealFinal::Done(s),
         Ok(Err(e)) => {
